@@ -263,6 +263,18 @@ class P:
         if "DUMP-" in impl:
             return "the loaded cache can not be dumped: " + impl[:80]
         kind = line.split(" ", 1)[0]
+        if " || XPROC " in impl:
+            # the restart for real: another process loaded the saved file
+            head, rest = impl.split(" || XPROC ", 1)
+            xp, tail = rest.split(" || REF ", 1) if " || REF " in rest else (rest, "")
+            if xp != head:
+                if xp.startswith("XPROC-") or "PANIC" in xp:
+                    return "loading the saved cache file in a new process fails: %s" % xp[:120]
+                th, tx = head.split(" | ")[0], xp.split(" | ")[0]
+                what = ("the templates it holds differ: same process %s, new process %s" % (th[:160], tx[:160])) if th != tx else \
+                       ("the same datagrams decode differently: same process %r, new process %r" % (head[-200:], xp[-200:]))
+                return "a cache file saved by one process does not give the same cache in ANOTHER process (a real restart) as in the process that saved it: %s" % what
+            impl = head + (" || REF " + tail if tail else "")
         if " || REF " in impl:
             # relational oracle (implementation only): a restart on the saved file is transparent: the templates in force and
             # everything decoded afterwards are what the same collector shows when it never restarted
